@@ -473,8 +473,11 @@ func (w *world) clientCfg(kind, want string, cmd int) *security.SecurityConfig {
 		cfg.CryptoMethods = nil // no cipher in common with the server: the session cannot be keyed
 	}
 	lvl := opt
-	if want == "strong" {
+	switch want {
+	case "strong":
 		lvl = req
+	case "prefer":
+		lvl = prf
 	}
 	cfg.Encryption = lvl
 	if kind == "unauthenticated" {
